@@ -14,9 +14,11 @@ import (
 	"net/http/httptest"
 	"os"
 	"runtime"
+	"runtime/pprof"
 	"sort"
 	"strings"
 	"sync"
+	"sync/atomic"
 	"testing"
 	"time"
 
@@ -53,6 +55,8 @@ var preStates = []preState{
 }
 
 var probePre = preState{Name: "unlimited-holds-q0", Queued: 1, Probe: true}
+
+var bootSeq atomic.Int64
 
 // ---- one booted application over one store -------------------------------------------------------------------
 
@@ -126,7 +130,18 @@ func (e *env) boot() error {
 		e.app.Shutdown()
 		e.app = nil
 	}
-	a, err := app.VerifBoot(app.VerifBootOptions{Dir: e.dir + "/app", ConfigText: dslText(e.pol, e.pre, 21000+e.worker*10), Store: e.sys.Store})
+	// every boot gets fresh placeholder addresses: http.Server.Shutdown may return before a Serve goroutine that
+	// has not started yet closes its (in-memory) listener
+	var a *app.VerifApp
+	var err error
+	for try := 0; try < 50; try++ {
+		port := 20000 + int(bootSeq.Add(1)%13000)*3
+		a, err = app.VerifBoot(app.VerifBootOptions{Dir: e.dir + "/app", ConfigText: dslText(e.pol, e.pre, port), Store: e.sys.Store})
+		if err == nil || !strings.Contains(err.Error(), "address already in use") {
+			break
+		}
+		runtime.Gosched()
+	}
 	if err != nil {
 		return fmt.Errorf("boot (%s): %w", e.pol.Name, err)
 	}
@@ -946,7 +961,11 @@ func runProbes(worker int, backend string, c *collector) {
 
 func buildUnits(r *runner.Run) []unit {
 	var us []unit
-	for _, backend := range []string{"memory", "sqlite"} {
+	backends := []string{"memory", "sqlite"}
+	if v := os.Getenv("C15_DEBUG_BACKEND"); v != "" {
+		backends = []string{v}
+	}
+	for _, backend := range backends {
 		for _, pre := range preStates {
 			for _, pol := range policies {
 				for _, ps := range paths {
@@ -1074,6 +1093,14 @@ func TestCheck(t *testing.T) {
 		r.Finish()
 	}
 
+	t0 := time.Now()
+	if pf := os.Getenv("C15_DEBUG_PROF"); pf != "" {
+		f, _ := os.Create(pf)
+		pprof.StartCPUProfile(f)
+		runtime.SetMutexProfileFraction(5)
+		runtime.SetBlockProfileRate(10000)
+		defer func() {}()
+	}
 	units := buildUnits(r)
 	workers := runtime.NumCPU()
 	if workers > 16 {
@@ -1109,6 +1136,16 @@ func TestCheck(t *testing.T) {
 	}
 	close(ch)
 	wg.Wait()
+	r.Set("enumeration_wall_s", time.Since(t0).Seconds())
+	if pf := os.Getenv("C15_DEBUG_PROF"); pf != "" {
+		pprof.StopCPUProfile()
+		f, _ := os.Create(pf + ".mutex")
+		pprof.Lookup("mutex").WriteTo(f, 0)
+		f.Close()
+		f, _ = os.Create(pf + ".block")
+		pprof.Lookup("block").WriteTo(f, 0)
+		f.Close()
+	}
 
 	for _, msg := range c.infra {
 		r.Infra("%s", msg)
